@@ -120,7 +120,12 @@ func runSelfValidation(repo, verif, property string, names []string, seed int64)
 		return res
 	}
 	serves := map[string]bool{}
+	scoped := map[string]string{}
 	for _, n := range names {
+		if i := strings.Index(n, "@"); i > 0 {
+			scoped[n[:i]] = n[i+1:]
+			continue
+		}
 		serves[n] = true
 	}
 	var todo []Mutant
@@ -128,6 +133,9 @@ func runSelfValidation(repo, verif, property string, names []string, seed int64)
 		use := false
 		for _, rn := range m.Rules {
 			if serves[rn] {
+				use = true
+			}
+			if sc, ok := scoped[rn]; ok && strings.HasPrefix(m.File, sc+"/") {
 				use = true
 			}
 		}
